@@ -144,3 +144,33 @@ def walkers(mol, nconf, rng, spread=1.0):
     finally:
         np.random.set_state(st)
     return c
+
+
+@cached
+def lih_ecp():
+    from pyscf import gto, scf
+    mol = gto.M(atom="Li 0. 0. 0.; H 0. 0. 1.5", basis="ccecp-ccpvdz", ecp="ccecp", unit="bohr", verbose=0)
+    mf = scf.RHF(mol).run()
+    return mol, mf
+
+
+@cached
+def diamond():
+    """periodic cell with pseudopotentials: the repository's own stored SCF result (tests/files/diamond_primitive.hdf5)"""
+    import os
+    import pyqmc.api as pyq
+    repo = os.environ.get("VERIF_REPO", "/repo")
+    return pyq.recover_pyscf(os.path.join(repo, "tests/files/diamond_primitive.hdf5"), cancel_outputs=False)
+
+
+def ecp_wfs(rng, periodic=True):
+    """(name, mol, wf) for systems WITH pseudopotentials (T-moves, non-local energy): LiH/ccECP open, diamond/ccECP periodic"""
+    from pyqmc.wf.slater import Slater
+    from pyqmc.wf.multiplywf import MultiplyWF
+    from pyqmc.wftools import generate_jastrow
+    mol, mf = lih_ecp()
+    out = [("ecp_lih_slater*jastrow", mol, MultiplyWF(Slater(mol, mf), randomize(generate_jastrow(mol)[0], rng)))]
+    if periodic:
+        cell, kmf = diamond()
+        out.append(("ecp_diamond_slater*jastrow", cell, MultiplyWF(Slater(cell, kmf), randomize(generate_jastrow(cell)[0], rng, scale=0.1))))
+    return out
